@@ -11,6 +11,7 @@ import (
 
 	mocker "github.com/tencent/goom"
 	"github.com/tencent/goom/erro"
+	asmleaf "github.com/tencent/goom/nocgo"
 	"github.com/tencent/goom/zzverif/corpus/fn"
 	"github.com/tencent/goom/zzverif/corpus/ifc"
 	"github.com/tencent/goom/zzverif/corpus/sig"
@@ -170,6 +171,15 @@ func TestVerifRejectScenarios(t *testing.T) {
 	more = append(more, scen{"origin-unrelocatable", func(b *mocker.Builder) {
 		b.Func(fn.Loop).Origin(&fn.OLoop).Apply(func(a int) int { return 3000 + fn.OLoop(a) })
 	}, loopTok, nil, nil})
+	leafTok := func() string {
+		if asmleaf.CallLeaf() == 0x11 {
+			return "orig"
+		}
+		return fmt.Sprintf("mocked(%#x)", asmleaf.Hit)
+	}
+	more = append(more, scen{"target-shorter-than-the-jump", func(b *mocker.Builder) {
+		b.Pkg(asmleaf.Pkg).ExportFunc("leaf").Apply(func() { asmleaf.Hit = 0x99 })
+	}, leafTok, nil, nil})
 	scens = append(scens, more...)
 	for _, sc := range scens {
 		for _, prior := range []string{"never", "same-builder", "after-reset"} {
